@@ -572,3 +572,20 @@ Proof.
   - induction H as [|e r He _ IH]; [reflexivity|]. now rewrite He, IH.
   - induction H as [|[a b] r [Ha Hb] _ IH]; [reflexivity|]. simpl in *. now rewrite Ha, Hb, IH.
 Qed.
+
+(* ------------------------------------------------ all basic literals of a value (values,
+   map keys, everything below pointers and interface boxes), with their basic kind *)
+Fixpoint lits_of (v : val) : list (base * lit) :=
+  match v with
+  | VBase b l => [(b, l)]
+  | VNamed _ b l => [(b, l)]
+  | VStruct _ fs => flat_map (fun fv => lits_of (snd fv)) fs
+  | VNilPtr _ => []
+  | VPtr w => lits_of w
+  | VSlice _ None => []
+  | VSlice _ (Some es) => flat_map lits_of es
+  | VMap _ _ None => []
+  | VMap _ _ (Some kvs) => flat_map (fun kv => lits_of (fst kv) ++ lits_of (snd kv)) kvs
+  | VIface _ None => []
+  | VIface _ (Some w) => lits_of w
+  end.
